@@ -85,3 +85,24 @@ Proof.
   destruct (Z.leb_spec (Z.of_nat start) (Z.of_nat start + Z.of_nat k)); [| lia].
   destruct (Z.ltb_spec (Z.of_nat start + Z.of_nat k) (Z.of_nat start + Z.of_nat size)); [reflexivity | lia].
 Qed.
+
+(* ALIASING: both operands the same iterator object; a += (a - a); swap *)
+Theorem c16_self_operand_laws :
+  forall (P V : Type) (o : c16_ops P V) (rep : Z -> P) (lo hi : Z), c16_iter_laws o rep lo hi ->
+  forall a b, c16_in lo hi a -> c16_in lo hi b ->
+    c16_o_eq o (rep a) (rep a) = true /\ c16_o_ne o (rep a) (rep a) = false /\
+    c16_o_lt o (rep a) (rep a) = false /\ c16_o_le o (rep a) (rep a) = true /\
+    c16_o_gt o (rep a) (rep a) = false /\ c16_o_ge o (rep a) (rep a) = true /\
+    c16_o_diff o (rep a) (rep a) = 0 /\
+    c16_o_pluseq o (rep a) (c16_o_diff o (rep a) (rep a)) = rep a /\
+    c16_o_minuseq o (rep a) (c16_o_diff o (rep a) (rep a)) = rep a /\
+    c16_swap (rep a) (rep b) = (rep b, rep a).
+Proof.
+  intros P V o rep lo hi ((Heq & _) & Hcmp & _ & Hplus & Hminus) a b Ha Hb.
+  destruct (Heq a a Ha Ha) as (E1 & E2). destruct (Hcmp a a Ha Ha) as (L1 & L2 & L3 & L4 & L5).
+  rewrite E1, E2, L1, L2, L3, L4, L5, Z.eqb_refl, Z.ltb_irrefl, Z.leb_refl, Z.sub_diag.
+  assert (A0 : c16_in lo hi (a + 0)) by (rewrite Z.add_0_r; assumption).
+  assert (S0 : c16_in lo hi (a - 0)) by (rewrite Z.sub_0_r; assumption).
+  destruct (Hplus a 0 Ha A0) as (_ & P1 & _). destruct (Hminus a 0 Ha S0) as (_ & M1).
+  rewrite P1, M1, Z.add_0_r, Z.sub_0_r. repeat split; reflexivity.
+Qed.
